@@ -130,6 +130,13 @@ def run_check(prop, rules, tier, model, repo, explanation, assumptions, seed=0, 
         chk.note('known finding not reproduced on this tree (no longer fails or construct gone): %s %s' % (
             k['rule'], k['key']))
 
+    if err and status == 2 and violations and 'floor is' in err:
+        # a rule found fewer instances than confirmed by hand *and* other instances fail: the failing constructs are
+        # the informative report (the missing instances are usually a consequence of the same change)
+        chk.note(err)
+        print(err.replace('ANALYSIS-ERROR', 'NOTE (instance floor missed, reported as part of the violation)'))
+        err = None
+        status = 0
     if err:
         print(err)
     replay_path = None
